@@ -442,3 +442,15 @@ mod tests {
         assert!(counts.record_data_frame(0).is_err());
     }
 }
+
+#[cfg(feature = "verif")]
+impl Counts {
+    pub(super) fn verif_stats(&self) -> (usize, usize, usize, usize) {
+        (
+            self.num_send_streams,
+            self.num_recv_streams,
+            self.num_local_reset_streams,
+            self.num_remote_reset_streams,
+        )
+    }
+}
